@@ -435,6 +435,7 @@ def render_hy(prog):
 # Python twin renderer (written from the docs, independent of Hy's compiler)
 
 IND = "    "
+_DIAG = [False]      # render the diagnostic twin (see render_py)
 
 
 def _is_effectful(e):
@@ -502,6 +503,9 @@ def P(n, out, ind, sc, bare):
         if not n["hs"] and n["fin"] is None and n["else"] is None:
             _block(n["b"], rv, out, ind, sc, bare)       # documented: like `do`
             return rv
+        diag = _DIAG[0] and n.get("star") and n["hs"]
+        if diag:
+            out.append(f"{ind}_EXITED.discard({n['id']})")
         out.append(f"{ind}try:")
         _block(n["b"], rv, out, ind + IND, sc, bare)
         for i, h in enumerate(n["hs"]):
@@ -513,7 +517,17 @@ def P(n, out, ind, sc, bare):
                 as_ = f" as {tw}"
             kw = "except*" if h.get("star", n.get("star")) else "except"
             out.append(f"{ind}{kw}{_py_spec(h['spec'], bare)}{as_}:")
-            _block(h["b"], rv, out, ind + IND, sc2, bare)
+            if _DIAG[0] and kw == "except*":
+                # diagnostic twin: note when this handler's body is left by an exception
+                fl = f"_hx{n['id']}_{i}"
+                out.append(f"{ind}{IND}{fl} = False")
+                out.append(f"{ind}{IND}try:")
+                _block(h["b"], rv, out, ind + IND + IND, sc2, bare)
+                out.append(f"{ind}{IND}{IND}{fl} = True")
+                out.append(f"{ind}{IND}finally:")
+                out.append(f"{ind}{IND}{IND}if not {fl}: _EXITED.add({n['id']})")
+            else:
+                _block(h["b"], rv, out, ind + IND, sc2, bare)
         if n["else"] is not None:
             if not n["hs"]:
                 out.append(f"{ind}except ():")
@@ -523,6 +537,10 @@ def P(n, out, ind, sc, bare):
         if n["fin"] is not None:
             out.append(f"{ind}finally:")
             _block(n["fin"], None, out, ind + IND, sc, bare)
+        if diag:
+            # reached only when the try statement completed without an exception: by the
+            # language reference that is impossible after an except* body raised
+            out.append(f"{ind}if {n['id']} in _EXITED: _LOST.append({n['id']})")
         return rv
     if op == "with":
         # docs: "`with` returns the value of its last form, unless it suppresses an exception
@@ -551,7 +569,18 @@ def P(n, out, ind, sc, bare):
     raise AssertionError(op)
 
 
-def render_py(prog, bare=True):
+def render_py(prog, bare=True, diag=False):
+    """diag=True: the same twin plus bookkeeping that detects CPython completing an `except*`
+    try statement normally although one of its handler bodies was left by an exception
+    (CPython 3.12.1 drops the exception in some nestings; such runs are outside the trusted base)."""
+    _DIAG[0] = diag
+    try:
+        return _render_py(prog, bare)
+    finally:
+        _DIAG[0] = False
+
+
+def _render_py(prog, bare):
     ctx, forms = prog["ctx"], prog["forms"]
     out = []
     if ctx == "module":
@@ -771,6 +800,7 @@ def run_code(code, plan):
     tr = Trace09(plan={int(k): v for k, v in plan})
     ns = env09(tr)
     ns["__name__"] = "hvc09"
+    ns["_EXITED"], ns["_LOST"] = set(), []
     exc = None
     try:
         exec(code, ns)
@@ -778,7 +808,7 @@ def run_code(code, plan):
         if type(ex).__name__ == "CaseTimeout":
             raise
         exc = ex
-    out = {"events": tr.events, "exc": None, "result": None}
+    out = {"events": tr.events, "exc": None, "result": None, "lost": list(ns["_LOST"])}
     if exc is not None:
         out["exc"] = exc_tree(exc)
     else:
